@@ -3,7 +3,10 @@
 (* Trace use of EnterLeave.tla.  One line = one CreateEnterLeaveEvent or  *)
 (* ResetTotals on the real model, with the totals before and after read   *)
 (* through GetEnterLeaveEvent.  "New" = construction (pre = the initial   *)
-(* event's totals, or the default).                                       *)
+(* event's totals, or the default).  se / sl are the totals the event     *)
+(* actually carried (the walk gives them relative to the model's current  *)
+(* counters; "echo" events are the last event read with only the          *)
+(* direction set), how = how they were drawn.                             *)
 (***************************************************************************)
 EXTENDS EnterLeave, TLC, Json
 
@@ -17,10 +20,9 @@ Fails(t) ==
   ELSE IF t.op = "Reset" THEN If(t.err = "OK", "err") \cup If(t.post = Reset(t.pre), "reset-totals")
   ELSE LET want == Event(t.pre, t.dir, t.se, t.sl) IN
        If(t.err = "OK", "err")
-       \cup If(~Settled(t.se, t.pre.enter, t.dir = "ENTER") \/ t.post.enter = want.enter,
-               IF t.se.has /\ t.se.v # Cur(t.pre.enter) THEN "supplied-enter-total-wins" ELSE "enter-total-counts")
-       \cup If(~Settled(t.sl, t.pre.leave, t.dir = "LEAVE") \/ t.post.leave = want.leave,
-               IF t.sl.has /\ t.sl.v # Cur(t.pre.leave) THEN "supplied-leave-total-wins" ELSE "leave-total-counts")
+       \* one clause per counter, named after the rule of the doc comment that applies
+       \cup If(t.post.enter = want.enter, "enter-total-" \o Rule(t.se, t.pre.enter) \o (IF t.dir = "ENTER" THEN "-counting" ELSE ""))
+       \cup If(t.post.leave = want.leave, "leave-total-" \o Rule(t.sl, t.pre.leave) \o (IF t.dir = "LEAVE" THEN "-counting" ELSE ""))
 
 BadLines == { k \in 1..Len(Obs) : Fails(Obs[k]) # {} }
 TraceInit == c = 0
